@@ -45,6 +45,7 @@ type c02Step struct {
 
 type c02Case struct {
 	SmartCard bool    `json:"smartcard_auth_also_enabled,omitempty"`
+	LongKey   bool    `json:"long_signing_key,omitempty"` // the gateway signs with a 64-character key (long enough for HS384/HS512, which it must refuse all the same)
 	Caps      uint16  `json:"client_caps,omitempty"` // handshake capability value of the tunnels (inp level)
 	IdleS     int     `json:"idle_before_tunnel_create_s,omitempty"`
 	Steps []c02Step `json:"steps"`
@@ -92,6 +93,7 @@ func genC02(t *rapid.T, level string) c02Case {
 			c.Caps = uint16(rapid.IntRange(1, 3).Draw(t, "clientCaps")) // smart card only, cookie only, both
 		}
 	}
+	c.LongKey = rapid.IntRange(0, 3).Draw(t, "longKey") == 0
 	n := rapid.IntRange(1, 6).Draw(t, "nsteps")
 	for i := 0; i < n; i++ {
 		if rapid.IntRange(0, 4).Draw(t, "idpOp") == 0 {
@@ -330,6 +332,11 @@ func runC02(c c02Case) *Violation {
 	caps := c.Caps
 	if caps == 0 {
 		caps = 2
+	}
+	if c.LongKey {
+		old := w.Key
+		w.Key = append(append([]byte{}, old...), old...)
+		defer func() { w.Key = old }()
 	}
 	return withGateway(mkGateway(o), func() *Violation {
 		ats := [2]string{w.IdP.NewAccessToken("ok:" + w.User), w.IdP.NewAccessToken("ok:" + w.User)}
@@ -579,8 +586,29 @@ func TestC02_IDLE(t *testing.T) {
 			if rs, _ := sess.Decode(ctl.Pkts); len(rs) < 2 || rs[1].Status != 0 {
 				return viol("c02/refused-valid/within-leeway", "a cookie %d s past expiry (inside the one-minute leeway) was refused: %v", -c.ExpAtConnect, rs)
 			}
+			// meanwhile: a correctly signed, unexpired cookie whose access token the identity provider is slow to judge
+			// (7 s) and then rejects must not be accepted, however long the gateway is prepared to wait
+			slow := make(chan *Violation, 1)
+			go func() {
+				sat := w.IdP.NewAccessToken("slow-401")
+				stok := jwx.MintHS256(cookieClaims(w.addr("A"), "127.0.0.1", sat, w.User, time.Now().Add(4*time.Minute)), w.Key)
+				id := identity.NewUser()
+				id.SetAttribute(identity.AttrClientIp, "127.0.0.1")
+				tun := &protocol.Tunnel{User: identity.NewUser(), RemoteAddr: "127.0.0.1:1"}
+				ctx, cancel := context.WithTimeout(context.WithValue(context.WithValue(context.Background(), identity.CTXKey, identity.Identity(id)), protocol.CtxTunnel, tun), 12*time.Second)
+				defer cancel()
+				t0 := time.Now()
+				if ok, _ := security.CheckPAACookie(ctx, stok); ok {
+					slow <- viol("c02/accepted/idp-never-confirmed", "a cookie was accepted after %v although the identity provider had not confirmed its access token (it answers 401 after 7 s)", time.Since(t0).Round(time.Millisecond))
+					return
+				}
+				slow <- nil
+			}()
 			conn.Send(tsgu.Handshake(1, 0, 0, 2))
 			time.Sleep(time.Duration(c.IdleS) * time.Second)
+			if v := <-slow; v != nil {
+				return v
+			}
 			conn.Send(tsgu.TunnelCreate(tok, true))
 			conn.Send(tsgu.Handshake(0, 0, 0, 2))
 			r := sess.Collect(conn, sess.EndWait)
